@@ -17,10 +17,11 @@
 # -----------------------------------------------------------------------------
 import abc
 import logging
+from hashlib import sha256
 from typing import Any
 from collections.abc import Coroutine
 from Cryptodome.PublicKey import ECC, RSA
-from ...encoding import FormalName, BinaryStr, SignatureType, Name, parse_data, SignaturePtrs
+from ...encoding import FormalName, BinaryStr, SignatureType, Name, Component, parse_data, SignaturePtrs
 from ...app import NDNApp, Validator, ValidationFailure, InterestTimeout, InterestNack
 from .known_key_validator import verify_rsa, verify_hmac, verify_ecdsa, verify_ed25519
 
@@ -99,6 +100,9 @@ class CascadeChecker:
         self.storage = storage if storage is not None else MemoryKeyStorage()
         cert_name, _, key_bits, sig_ptrs = parse_data(trust_anchor)
         self.anchor_name = [bytes(c) for c in cert_name]  # Copy the name in case
+        # A key locator may also name the anchor by its full name
+        self.anchor_full_name = self.anchor_name + [bytes(Component.from_bytes(
+            sha256(trust_anchor).digest(), Component.TYPE_IMPLICIT_SHA256))]
         self.anchor_key = bytes(key_bits)
         self._fetching = {}  # Name being validated -> name of the certificate it is waiting for
         if not self._verify_sig(self.anchor_key, sig_ptrs):
@@ -112,7 +116,7 @@ class CascadeChecker:
         # Obtain public key
         cert_name = sig_ptrs.signature_info.key_locator.name
         self.logger.debug('Verifying %s <- %s ...', Name.to_str(name), Name.to_str(cert_name))
-        if cert_name == self.anchor_name:
+        if cert_name == self.anchor_name or cert_name == self.anchor_full_name:
             self.logger.debug('Use trust anchor.')
             key_bits = self.anchor_key
         else:
